@@ -307,6 +307,16 @@ def check_cdist(r, rule):
     e = stores[0]
     w = where_of(r.P, s.func, e.node)
     lps = [s.loops[l] for l in e.ctx.loops]
+    if len(lps) == 1 and head(strip(lps[0].iterable)) == "call" and strip(strip(lps[0].iterable)[1]) == ("glob", "itertools.product") and len(strip(lps[0].iterable)[2]) == 2 and not strip(lps[0].iterable)[3]:
+        # for (i, u), (j, v) in itertools.product(enumerate(A), enumerate(B)): the two nested loops in one (first factor outermost)
+        class _Factor:
+            pass
+        fs = []
+        for k_, it_ in enumerate(strip(lps[0].iterable)[2]):
+            f_ = _Factor()
+            f_.iterable, f_.elem, f_.node = it_, ("item", lps[0].elem, k_), lps[0].node
+            fs.append(f_)
+        lps = fs
     ils = [_index_loop(lp) for lp in lps]
     if len(lps) != 2 or any(x is None for x in ils):
         rep.require(False, f"{q}: the loop nest around the store into the matrix is outside the idiom list (two range / enumerate loops); cannot decide [{rule}]")
